@@ -90,6 +90,16 @@ CHECKS = {
              "library whose inlining thresholds differ; all are compared with the reference model, which never inlines or simplifies.",
         note="Trusted: reference model. The always-inline build bounds caller growth (5x / 1000 insns) to keep nested call chains finite.",
         design="3/C04"),
+    "C09": dict(
+        technique=TECH + "differential execution of the preprocessor: c2m -E (ASan/UBSan/assert build) vs gcc -E -P on generated macro sets, invocations "
+                         "and #if expressions, token strings compared",
+        text="Generated translation units (object/function-like/variadic macros, #, ##, nested, recursive and mutually recursive names, empty and "
+             "parenthesised arguments, names taking arguments from following text, #undef, stringified expansions, #if/#elif over random "
+             "(u)intmax_t expressions) are preprocessed by both tools; the outputs after a marker are compared as white-space-free token strings; "
+             "rejection of input the reference accepts, a crash, a sanitizer report or a hang of c2m are violations too.",
+        note="Trusted: gcc as the conforming preprocessor. Input on which gcc warns about undefined constructs is discarded. Spacing between tokens "
+             "(also inside stringified expansions) is not compared.",
+        design="3/C09"),
     "C17": dict(
         technique=TECH + "checking allocator + checking code allocator passed to MIR_init2 (ledger of every block and code region, poisoned "
                          "quarantine, real page protection with fault attribution), libc memory symbols of the library objects redirected by objcopy, "
